@@ -21,6 +21,7 @@ EXPLANATION = (
     "max_timesteps` (strict, one step per test) and returns records read from that local model (one collector: its "
     "list; several: a dict keyed by collector id). Error discipline: no handler on the run path swallows an exception. "
     "Argument validation raises before any work. Not decided: OS scheduling and Pool delivery (trusted library).")
+EXPLANATION += (" Collector.__init__ allocates the records list unconditionally on every path; Pool() receives the caller's `processes` unchanged.")
 ASSUMPTIONS = ["multiprocessing.Pool.imap* deliver every result once and re-raise worker exceptions in the parent",
                "C14 (the product list) and C02 (one step per Model.execute())"]
 
